@@ -77,6 +77,12 @@ func genC20(t *rapid.T) *C20Case {
 		c.Names = append(c.Names, nm)
 		c.Hidden = append(c.Hidden, rapid.IntRange(0, 4).Draw(t, "hidden") == 0)
 	}
+	if rapid.IntRange(0, 19).Draw(t, "longNames") == 0 {
+		// very long command names (and, below, words derived from them)
+		for i := range c.Names {
+			c.Names[i] += strings.Repeat(string(c20Alphabet[i%len(c20Alphabet)]), rapid.IntRange(55, 130).Draw(t, "nameLen"))
+		}
+	}
 	c.LateHide = rapid.IntRange(0, 2).Draw(t, "lateHide") == 0
 	switch rapid.IntRange(0, 9).Draw(t, "wordkind") {
 	case 0:
